@@ -280,6 +280,38 @@ pub fn execute(s: &ForScn, ctx: &mut Ctx) {
         }
     }
 
+    // ---- C03 with the index, the reading split over two iterators of the same reader: the first
+    // takes half of the records, the second yields the rest (or, C15, all of them again) - whatever
+    // record numbers the file stores
+    if layout_plain && n >= 2 {
+        let world = mk();
+        if let Open::Ok(mut r) = open(&world, true, s.rstack) {
+            let k = n / 2;
+            let res = guarded(|| {
+                let mut first: Vec<Item> = Vec::new();
+                {
+                    let mut it = r.iter_shapes();
+                    for _ in 0..k {
+                        match it.next() {
+                            Some(x) => first.push(x.map(|s| capture(&s)).map_err(|e| classify(&e))),
+                            None => break,
+                        }
+                    }
+                }
+                let (rest, capped) = drain(r.iter_shapes(), cap);
+                (first, rest, capped)
+            });
+            match res {
+                Ok((first, rest, capped)) => {
+                    let all: Vec<Item> = if rest.len() == n { rest } else { first.into_iter().chain(rest).collect() };
+                    check_items(ctx, "C03", "split-iteration", &all, capped, s, &site);
+                }
+                Err(p) => ctx.fail("C03", "panic", p.site(), format!("split iteration: {}", p.text())),
+            }
+        }
+        ctx.stats.absorb_world(&world.borrow());
+    }
+
     // ---- C14: with the index, located by the index alone
     let world = mk();
     let lsite = if permuted { "permuted" } else if !layout_plain { "filler" } else { "plain" };
@@ -348,6 +380,59 @@ pub fn execute(s: &ForScn, ctx: &mut Ctx) {
     if n > 0 {
         ctx.stats.distinct.insert(crate::prng::fnv_str(&sig));
     }
+    // ---- the same two files on disk, read by path (a quarter of the scenarios, chosen by content):
+    // the .shx lying next to the .shp is "supplied" to every by-path entry point
+    if n > 0 && crate::prng::fnv_str(&sig) % 4 == 0 {
+        by_path(ctx, s, &shp, &shx, has_null, lsite);
+    }
+}
+
+fn by_path(ctx: &mut Ctx, s: &ForScn, shp: &[u8], shx: &[u8], has_null: bool, lsite: &str) {
+    let dir = crate::scratch_dir();
+    let base = dir.join(format!("foreign-{}", crate::prng::fnv(shp) ^ crate::prng::fnv(shx)));
+    let shp_path = base.with_extension("shp");
+    if std::fs::write(&shp_path, shp).is_err() || std::fs::write(base.with_extension("shx"), shx).is_err() {
+        ctx.fail("HARNESS", "scratch", "foreign", "cannot write the scratch files".to_string());
+        return;
+    }
+    ctx.stats.reach("foreign-by-path");
+    let to_items = |v: Vec<Geom>| v.into_iter().map(Ok).collect::<Vec<Item>>();
+    let generic = guarded(|| shapefile::read_shapes(&shp_path).map_err(|e| classify(&e)));
+    match &generic {
+        Ok(Ok(v)) => check_items(ctx, "C14", "read_shapes(path)", &to_items(v.iter().map(capture).collect()), false, s, lsite),
+        Ok(Err(e)) => ctx.fail("C14", "no-error", format!("read_shapes(path):{}", lsite), format!("read_shapes(path) failed: {:?}", e)),
+        Err(p) => ctx.fail("C14", "panic", p.site(), format!("read_shapes(path): {}", p.text())),
+    }
+    match guarded(|| shapefile::ShapeReader::from_path(&shp_path).and_then(|r| r.read()).map_err(|e| classify(&e))) {
+        Ok(Ok(v)) => check_items(ctx, "C14", "from_path.read", &to_items(v.iter().map(capture).collect()), false, s, lsite),
+        Ok(Err(e)) => ctx.fail("C14", "no-error", format!("from_path.read:{}", lsite), format!("ShapeReader::from_path(..).read() failed: {:?}", e)),
+        Err(p) => ctx.fail("C14", "panic", p.site(), format!("from_path.read: {}", p.text())),
+    }
+    if s.ty != 0 && !has_null {
+        let ty = s.ty;
+        let typed = guarded(|| crate::on_type!(ty, S => shapefile::read_shapes_as::<_, S>(&shp_path).map(|v| v.into_iter().map(|x| x.to_geom()).collect::<Vec<Geom>>()).map_err(|e| classify(&e)), Err(RErr::InvalidShapeType(ty))));
+        match typed {
+            Ok(Ok(t)) => {
+                check_items(ctx, "C14", "read_shapes_as(path)", &to_items(t.clone()), false, s, lsite);
+                // C06: the typed by-path read is the generic by-path read, converted
+                if let Ok(Ok(g)) = guarded(|| shapefile::read_shapes(&shp_path).map_err(|e| classify(&e))) {
+                    match convert_typed(g, ty) {
+                        Ok(Ok(c)) => {
+                            if c != t {
+                                ctx.fail("C06", "typed-equals-generic-converted", "by-path", format!("read_shapes_as::<{}>(path) differs from read_shapes(path) converted: {:?} vs {:?}", type_name(ty), t.iter().map(|g| g.short()).collect::<Vec<_>>(), c.iter().map(|g| g.short()).collect::<Vec<_>>()));
+                            }
+                        }
+                        Ok(Err(e)) => ctx.fail("C06", "typed-equals-generic-converted", "by-path", format!("conversion of read_shapes(path) failed: {:?}", e)),
+                        Err(p) => ctx.fail("C06", "panic", p.site(), p.text()),
+                    }
+                }
+            }
+            Ok(Err(e)) => ctx.fail("C14", "no-error", format!("read_shapes_as(path):{}", lsite), format!("read_shapes_as(path) failed: {:?}", e)),
+            Err(p) => ctx.fail("C14", "panic", p.site(), format!("read_shapes_as(path): {}", p.text())),
+        }
+    }
+    let _ = std::fs::remove_file(&shp_path);
+    let _ = std::fs::remove_file(base.with_extension("shx"));
 }
 
 /// A geometry generated directly (not through constructors): any part structure incl. empty.
